@@ -49,8 +49,17 @@ mut("C24", "get_bypasses_lock", L,
     "        try:\n            return LRUCache.__getitem__(self, key)\n        except KeyError:\n            return default",
     "ThreadSafeLRUCache.get reads and refreshes without the lock: needs a concurrent delete between read and move_to_end")
 
+mut("C17", "oserror_means_notfound_again", "liquid/builtin/loaders/file_system_loader.py",
+    "                if err.errno in _BAD_NAME_ERRNOS:\n                    continue\n                raise",
+    "                continue",
+    "F15 again: a render hit by a transient storage error, then any render of the same name through a caching choice loader")
+
 # ---------------------------------------------------------------- C23
 X = "liquid/builtin/loaders/mixins.py"
+mut("C23", "oserror_means_notfound_again", "liquid/builtin/loaders/file_system_loader.py",
+    "                if err.errno in _BAD_NAME_ERRNOS:\n                    continue\n                raise",
+    "                continue",
+    "F15 again: needs an injected EIO/EACCES/EMFILE while a choice loader resolves a name that a later delegate also knows")
 mut("C23", "sync_check_then_act", X,
     "        try:\n            cached_template = self.cache[cache_key]\n        except KeyError:\n            template = load_func()\n            self.cache[cache_key] = template\n            return template\n\n        if self.auto_reload and not cached_template.is_up_to_date():",
     "        if cache_key not in self.cache:\n            template = load_func()\n            self.cache[cache_key] = template\n            return template\n\n        cached_template = self.cache[cache_key]\n        if self.auto_reload and not cached_template.is_up_to_date():",
@@ -112,8 +121,8 @@ mut("C22", "fs_pardir_checked_before_ext", F,
     "        if os.path.pardir in template_path.parts or template_path.is_absolute():\n            raise TemplateNotFoundError(template_name)\n\n        if self.ext and not template_path.suffix:\n            template_path = Path(str(template_path) + self.ext)",
     "control: equivalent reordering, expected NOT to be flagged")
 mut("C22", "fs_oserror_leaks_again", F,
-    "            try:\n                if not source_path.exists() or not source_path.is_file():\n                    continue\n            except OSError:\n                # The OS rejected the path. The name is too long, for example.\n                continue",
-    "            if not source_path.exists() or not source_path.is_file():\n                continue")
+    "                if err.errno in _BAD_NAME_ERRNOS:\n                    continue\n                raise",
+    "                raise")
 mut("C22", "pkg_absolute_again", P,
     "        if os.path.pardir in template_path.parts or template_path.is_absolute():",
     "        if os.path.pardir in template_path.parts:")
